@@ -138,6 +138,24 @@ def run(ctx):
                             bd = bounds[(rr[k], q, rr[k + 1], cap)]
                             okc = okc and all(zc[k * q + j] <= bd[j - 1] for j in range(1, q))
                         ctx.check(okc, 'tt_to_qtt:ranks', 'tt_to_qtt(e=%g, r=%d): bonds %s violate the contract (TT-ranks %s, q=%d)' % (e_, cap, zc, rr, q))
+    # value claim one step beyond the tabulated scope: q = 6..10 (mode sizes 64..1024), d = 2, 3, ranks up to 6
+    for q_, d_ in ((6, 3), (8, 2), (10, 2), (7, 3)) if quick else ((6, 3), (8, 2), (10, 2), (7, 3), (9, 2), (5, 4), (12, 2)):
+        n_ = 1 << q_
+        rr_ = [1] + [int(x) for x in rng.integers(2, 7, size=d_ - 1)] + [1]
+        Yb = [rng.normal(size=(rr_[k], n_, rr_[k + 1])) for k in range(d_)]
+        Zb = teneva.tt_to_qtt(Yb, e=1e-13, r=1000)
+        Ib = np.stack([rng.integers(0, n_, size=60) for _ in range(d_)], axis=1)
+        Bb = np.asarray(teneva.ind_tt_to_qtt(Ib, n_))
+        ctx.case(key=('value-large', q_, d_, rr_), nontrivial=True)
+        okb = F.is_wellformed(Zb, [2] * (q_ * d_))
+        if okb:
+            vb = np.asarray(teneva.get_many(Zb, Bb))
+            rb = np.asarray(teneva.get_many(Yb, Ib))
+            zr_ = [1] + [G.shape[2] for G in Zb]
+            okb = np.abs(vb - rb).max() <= 1e-8 * (1 + np.abs(rb).max()) and all(zr_[k * q_] == rr_[k] for k in range(d_ + 1))
+            Wb = teneva.qtt_to_tt(Zb, q_)
+            okb = okb and F.is_wellformed(Wb, [n_] * d_) and np.abs(np.asarray(teneva.get_many(Wb, Ib)) - rb).max() <= 1e-8 * (1 + np.abs(rb).max())
+        ctx.check(okb, 'tt_to_qtt:value', 'q = %d, d = %d, ranks %s: QTT entries at the bits of i differ from the entries at i, outer bonds changed, or the round trip fails' % (q_, d_, rr_))
     # the index maps for quantisation levels far above the tabulated ones (q up to 62: every index below 2^62 is an int64)
     for q in (20, 31, 32, 40, 53, 54, 55, 60, 62):
         for d_ in (1, 2, 3):
